@@ -366,7 +366,10 @@ Record refcell := { rc_target : dref; rc_count : Z; rc_err : bool }.
 
 Section Batcher.
   Context {R : Type}.
-  (* req.MergeSplit(ctx, maxSize, sizerType, other): None = error (unknown sizer / foreign type) *)
+  (* req.MergeSplit(ctx, maxSize, sizerType, other): None = error (unknown sizer / foreign type).  The Go method MUTATES:
+     afterwards the receiver is the last element of the result and the other request is empty; [msplit] is a pure function
+     of the two requests AS THEY WERE, and everything below that refers to the parked request ([icount cur] in
+     [first_holds_new]) means its state BEFORE the call, as default_batcher.go reads prevItems before MergeSplit *)
   Variable msplit : R -> option R -> option (list R).
   (* qb.sizer.Sizeof *)
   Variable sizeof : R -> Z.
